@@ -7,6 +7,7 @@
  * walks file: lines "PW op a ; op a ; ..." (from spec/PackedModel.tla). */
 #define _GNU_SOURCE
 #include "guard.h"
+#include <sys/mman.h>
 #include "pk_gen.h"
 #include "trace.h"
 
@@ -80,6 +81,94 @@ static void cell(const pkcfg *c, const char *op, int tight, uint32_t n, uint32_t
     ev_end();
     free(pre);
     gb_free(&g);
+}
+
+/* "far": the same cell case at element indices whose bit offset lies around
+ * 2^31, 2^32 and 2^33 of a huge sparse array (the index type is uint32_t, so
+ * arrays of hundreds of MiB are inside the API's domain).  Element I0 = I -
+ * (I mod period) starts on a slot boundary, so the window [slot before]
+ * [one period of elements][slot after] is logged as an ordinary n = period
+ * array with i = I - I0 (the layout is translation invariant by periods). */
+static uint8_t *pk_far_map;
+static const size_t PK_FAR_BYTES = (1ULL << 30) + (1ULL << 22);
+static void cell_far(const pkcfg *c, const char *op, uint32_t period, uint64_t I, uint64_t arg, uint64_t preset) {
+    if (!pk_far_map) {
+        pk_far_map = mmap(NULL, PK_FAR_BYTES, PROT_READ | PROT_WRITE,
+                          MAP_PRIVATE | MAP_ANONYMOUS | MAP_NORESERVE, -1, 0);
+        if (pk_far_map == MAP_FAILED) {
+            pk_far_map = NULL;
+            return;
+        }
+    }
+    size_t sb = (size_t)c->slot / 8;
+    uint64_t I0 = I - (I % period);
+    uint32_t i = (uint32_t)(I - I0);
+    size_t storage = ((size_t)period * (size_t)c->bits + (size_t)c->slot - 1) / (size_t)c->slot * sb;
+    size_t total = storage + 2 * sb;
+    uint64_t startbyte = I0 * (uint64_t)c->bits / 8; /* slot aligned */
+    if (startbyte < sb || startbyte + total > PK_FAR_BYTES || I > 0xFFFFFFFFULL) {
+        return;
+    }
+    uint8_t *win = pk_far_map + startbyte - sb;
+    fill(win, total, 2);
+    uint8_t *arr = win + sb;
+    if (strcmp(op, "Set")) {
+        for (int k = 0; k < c->bits; k++) {
+            size_t g = (size_t)i * (size_t)c->bits + (size_t)k;
+            uint8_t m = (uint8_t)(1u << (g % 8));
+            if ((preset >> k) & 1) {
+                arr[g / 8] |= m;
+            } else {
+                arr[g / 8] &= (uint8_t)~m;
+            }
+        }
+    }
+    uint8_t *pre = malloc(total);
+    memcpy(pre, win, total);
+    uint64_t got = 0;
+    int f;
+    if (!strcmp(op, "Set")) {
+        f = GUARDED(c->set(pk_far_map, (uint32_t)I, arg));
+    } else if (!strcmp(op, "Incr")) {
+        f = GUARDED(c->incr(pk_far_map, (uint32_t)I, (int64_t)arg));
+    } else {
+        f = GUARDED(c->half(pk_far_map, (uint32_t)I));
+    }
+    int gf = f ? 0 : GUARDED(got = c->get(pk_far_map, (uint32_t)I));
+    head("Pk", c, op, "iso");
+    ev_int("base", (long long)sb);
+    ev_int("n", period);
+    ev_int("i", i);
+    put_val4("val", arg);
+    ev_int("fault", f ? f : gf);
+    ev_bytes("pre", pre, total);
+    ev_bytes("post", win, f ? 0 : total);
+    put_val4("got", got);
+    ev_int("far", (long long)(I >> 10));
+    ev_end();
+    free(pre);
+}
+static void far_cells(const pkcfg *c) {
+    if (strstr(c->variant, "max")) {
+        return; /* instantiated with PACK_MAX_ELEMENTS: large indices are outside its domain */
+    }
+    int g = gcd_(c->bits, c->slot);
+    uint32_t period = (uint32_t)(c->slot / g);
+    uint64_t ones = c->bits >= 32 ? 0xFFFFFFFFULL : ((1ULL << c->bits) - 1);
+    static const uint64_t T[] = {1ULL << 31, 1ULL << 32, 1ULL << 33};
+    for (int t = 0; t < 3; t++) {
+        uint64_t Ib = T[t] / (uint64_t)c->bits;
+        Ib -= Ib % period;
+        for (int side = -1; side <= 0; side++) { /* the period just below and the one containing T */
+            uint64_t I0 = Ib + (uint64_t)((long long)side * (long long)period);
+            for (uint32_t e = 0; e < period; e += (period > 8 ? 3 : 1)) {
+                uint64_t cur = rng_u64() & (ones >> 1);
+                cell_far(c, "Set", period, I0 + e, (e % 2) ? ones : (rng_u64() & ones), 0);
+                cell_far(c, "Incr", period, I0 + e, ones - cur, cur);
+                cell_far(c, "Half", period, I0 + e, 0, rng_u64() & ones);
+            }
+        }
+    }
 }
 
 static void cells(const pkcfg *c) {
@@ -247,6 +336,7 @@ int main(int argc, char **argv) {
         }
         rng_seed(env_seed() * 31 + (uint64_t)k);
         cells(&PK[k]);
+        far_cells(&PK[k]);
         positional(&PK[k]);
     }
     FILE *f = fopen(argv[1], "r");
